@@ -289,6 +289,33 @@ def check_spec(spec, with_fd=True):
     return V, info
 
 
+def sequence_check(spec):
+    """jtj(theta) evaluated, a parameter the loss object does NOT estimate changed on the shared model, jtj at the SAME theta
+    again: the second answer is the Gauss-Newton matrix of the model as it now is.  -> list of (cls, what)"""
+    tgt = spec.get("target")
+    if not tgt or len(tgt) >= len(spec["params"]):
+        return []
+    other = [p for p in spec["params"] if p not in tgt][0]
+    k = spec["params"].index(other)
+    try:
+        L, th = build_loss(spec)
+        L.jtj(th)
+        theta2 = list(spec["theta"])
+        theta2[k] = theta2[k] * 1.5 + 0.2
+        L._ode.parameters = {other: theta2[k]}
+        J2 = np.asarray(L.jtj(th), dtype=float)
+    except Exception as e:      # noqa: B902
+        return [("jtj-sequence-raises", "jtj(theta); model.parameters = {%s: ...}; jtj(theta) raised %s: %s" % (other, type(e).__name__, e))]
+    R2 = c20ref.curvature(ref_spec(dict(spec, theta=theta2)))
+    sc = 1 + float(np.abs(R2["jtj"]).max())
+    if not close(J2, R2["jtj"], TOL, sc):
+        return [("jtj-stale-after-model-change", "jtj(theta) evaluated, then parameter %s (not estimated by this loss object) changed on "
+                 "the model from %r to %r, then jtj at the same theta: max deviation from the Gauss-Newton matrix of the changed "
+                 "model %.3g (scale %.3g)" % (other, spec["theta"][k], theta2[k], float(np.abs(J2 - R2["jtj"]).max())
+                                              if J2.shape == R2["jtj"].shape else float("nan"), sc))]
+    return []
+
+
 # ====================================================================== search
 # past failing inputs, always first.  x' = -x^2 + theta (complete: the second-order system is exact) shows the sign of
 # the residual-curvature term; SIR-like p*x*y is the recorded mixed-terms finding.
@@ -345,6 +372,13 @@ def run_search(ck):
         specs += [dict(CORPUS[0], backend="cython"), dict(CORPUS[3], backend="cython")]
     dist, worst = {}, {}
     known_hits = 0
+    seq_specs = [dict(CORPUS[1], target=["b"]), dict(CORPUS[1], target=["a"], weights=None, weight_kind="none")] + \
+        [sp for sp in specs if sp.get("target") and len(sp["target"]) < len(sp["params"])][:ck.budget(4, 20)]
+    for spec in seq_specs:
+        ck.case(dict(kind="jtj-sequence", spec=spec), nontrivial=True)
+        for cls, what in sequence_check(spec):
+            ck.violation(cls, what, dict(kind="jtj-sequence", spec=spec, cls=cls))
+    ck.notes["search_sequence_cases"] = len(seq_specs)
     for spec in specs:
         V, info = check_spec(spec, with_fd=True)
         key = "%s/%dx%d/%s%s" % (info.get("model_class"), len(spec["states"]), len(spec["params"]), spec.get("weight_kind"),
@@ -374,6 +408,9 @@ def replay(ck, data):
         for cls, what in V:
             if want is None or cls == want:
                 return "[%s] %s" % (cls, what)
+        return ("[%s] %s" % V[0]) if V else None
+    if inp.get("kind") == "jtj-sequence":
+        V = sequence_check(inp["spec"])
         return ("[%s] %s" % V[0]) if V else None
     if inp.get("kind") == "jtj-direct":
         W = np.array(inp["W"]).reshape(inp["n"], inp["ns"])
